@@ -349,3 +349,313 @@ Section Local.
       inversion Hy; subst. rewrite Hv. reflexivity.
   Qed.
 End Local.
+
+(* ================================================================ D. exact arithmetic: the aggregate is the sum of the tables' own totals *)
+Local Open Scope Qc_scope.
+
+Lemma security_gains_exact_total rows : forall g, exists g', security_gains exact g rows = Ok g'.
+Proof.
+  induction rows as [|r rows IH]; intros g; cbn [security_gains]; [eexists; reflexivity|].
+  unfold add_gain. destruct (snd r); cbn [a_add exact bind]; apply IH.
+Qed.
+
+Lemma add_years_exact_total ys : forall acc, exists acc', add_years exact acc ys = Ok acc'.
+Proof.
+  induction ys as [|[y v] ys IH]; intros acc; cbn [add_years]; [eexists; reflexivity|].
+  cbn [a_add exact bind]. apply IH.
+Qed.
+
+Lemma aggregate_exact_total secs : forall g, exists g', aggregate exact g secs = Ok g'.
+Proof.
+  induction secs as [|s secs IH]; intros g; cbn [aggregate]; [eexists; reflexivity|].
+  unfold add_security. cbn [a_add exact bind].
+  destruct (add_years_exact_total (g_years s) (g_years g)) as [ys E]. rewrite E. cbn [bind]. apply IH.
+Qed.
+
+(* the figures of a security's footer, as a function *)
+Definition xfooter (r : outcome) : gains :=
+  match footer_gains exact r with Ok g => g | _ => gains0 end.
+Definition xown (r : outcome) : option gains :=
+  match snd r with None => Some (xfooter r) | Some _ => None end.
+
+Lemma footer_gains_exact r :
+  footer_gains exact r = Ok (xfooter r) /\ own_gains exact r = Ok (xown r) /\
+  NoDup (map fst (g_years (xfooter r))) /\ (snd r <> None -> xfooter r = gains0).
+Proof.
+  unfold xown, xfooter, footer_gains, own_gains. destruct (snd r) as [st|]; cbn [bind gains_or_default].
+  - split; [reflexivity|]. split; [reflexivity|]. split; [constructor | reflexivity].
+  - destruct (security_gains_exact_total (gain_rows (fst r)) gains0) as [g E]. rewrite E.
+    cbn [bind gains_or_default]. split; [reflexivity|]. split; [reflexivity|]. split; [|congruence].
+    eapply security_gains_keys; [exact E | constructor].
+Qed.
+
+Lemma collect_exact (l : list (N * outcome)) :
+  collect (map (fun x => own_gains exact (snd x)) l) = Ok (some_gains (map (fun x => xown (snd x)) l)).
+Proof.
+  induction l as [|x l IH]; cbn [map collect]; [reflexivity|].
+  destruct (footer_gains_exact (snd x)) as (_ & E & _). rewrite E, IH. cbn [bind].
+  destruct (xown (snd x)); reflexivity.
+Qed.
+
+Lemma sum_some (f : gains -> Qc) (l : list (N * outcome)) :
+  f gains0 = 0 ->
+  sum_secs f (some_gains (map (fun x => xown (snd x)) l)) = sum_secs f (map (fun x => xfooter (snd x)) l).
+Proof.
+  intros H0. induction l as [|x l IH]; cbn [map sum_secs]; [reflexivity|].
+  destruct (footer_gains_exact (snd x)) as (_ & _ & _ & Hf). unfold xown at 1.
+  destruct (snd (snd x)) as [st|].
+  - change (some_gains (None :: ?r)) with (some_gains r). rewrite IH, Hf by discriminate. rewrite H0. ring.
+  - change (some_gains (Some ?g :: ?r)) with (g :: some_gains r). cbn [sum_secs]. rewrite IH. reflexivity.
+Qed.
+
+Lemma some_gains_in g (l : list (N * outcome)) :
+  In g (some_gains (map (fun x => xown (snd x)) l)) ->
+  exists x, In x l /\ g = xfooter (snd x).
+Proof.
+  induction l as [|x l IH]; cbn [map]; [intros []|].
+  unfold xown at 1. destruct (snd (snd x)) as [st|].
+  - change (some_gains (None :: ?r)) with (some_gains r). intros H.
+    destruct (IH H) as [y [Hy E]]. exists y. split; [right; exact Hy | exact E].
+  - change (some_gains (Some ?g :: ?r)) with (g :: some_gains r). intros [H|H].
+    + exists x. split; [left; reflexivity | symmetry; exact H].
+    + destruct (IH H) as [y [Hy E]]. exists y. split; [right; exact Hy | exact E].
+Qed.
+
+Lemma some_gains_in_rev (l : list (N * outcome)) x :
+  In x l -> xfooter (snd x) = gains0 \/ In (xfooter (snd x)) (some_gains (map (fun x => xown (snd x)) l)).
+Proof.
+  induction l as [|z l IH]; [intros []|]. intros [->|H]; cbn [map].
+  - destruct (footer_gains_exact (snd x)) as (_ & _ & _ & Hf). unfold xown at 1.
+    destruct (snd (snd x)) as [st|]; [left; apply Hf; discriminate|].
+    right. change (some_gains (Some ?g :: ?r)) with (g :: some_gains r). left; reflexivity.
+  - destruct (IH H) as [E|E]; [left; exact E|]. right.
+    unfold xown at 1. destruct (snd (snd z)).
+    + exact E.
+    + change (some_gains (Some ?g :: ?r)) with (g :: some_gains r). right; exact E.
+Qed.
+
+(* the years an aggregate shows: those of the starting record and of the
+   securities added (any arithmetic) *)
+Lemma zupdate_keys_in x k v l : In x (map fst (zupdate k v l)) <-> x = k \/ In x (map fst l).
+Proof.
+  induction l as [|[a b] l IH]; cbn [zupdate map fst In].
+  - intuition.
+  - destruct (Z.eqb k a) eqn:E; cbn [map fst In].
+    + apply Z.eqb_eq in E. subst a. intuition.
+    + rewrite IH. intuition.
+Qed.
+
+Lemma add_years_keys A ys : forall acc acc' y,
+  add_years A acc ys = Ok acc' ->
+  (In y (map fst acc') <-> In y (map fst acc) \/ In y (map fst ys)).
+Proof.
+  induction ys as [|[k v] ys IH]; intros acc acc' y H; cbn [add_years] in H.
+  - inversion H; subst. cbn [map In]. intuition.
+  - bind_as H as s Es. rewrite (IH _ _ y H), zupdate_keys_in. cbn [map fst In]. intuition.
+Qed.
+
+Lemma aggregate_keys A secs : forall g g' y,
+  aggregate A g secs = Ok g' ->
+  (In y (map fst (g_years g')) <-> In y (map fst (g_years g)) \/ exists s, In s secs /\ In y (map fst (g_years s))).
+Proof.
+  induction secs as [|s secs IH]; intros g g' y H; cbn [aggregate] in H.
+  - inversion H; subst. split; [auto | intros [H1|[s [[] _]]]; exact H1].
+  - bind_as H as g1 E1. unfold add_security in E1. bind_as E1 as t Et. bind_as E1 as ys Ey.
+    inversion E1; subst g1; clear E1. rewrite (IH _ _ y H). cbn [g_years].
+    rewrite (add_years_keys _ _ _ _ y Ey). split.
+    + intros [[H1|H1]|[k [Hk Hy]]]; [left; exact H1 | right; exists s; split; [left; reflexivity | exact H1]
+                                     | right; exists k; split; [right; exact Hk | exact Hy]].
+    + intros [H1|[k [[<-|Hk] Hy]]]; [left; left; exact H1 | left; right; exact Hy | right; exists k; auto].
+Qed.
+
+(* the aggregate of a ledger result, exact arithmetic: always there; total and
+   every year are the sums of the securities' footer figures (a failed
+   security's footer is the empty record: nothing) *)
+Theorem app_aggregate_exact (secs : list (N * outcome)) :
+  exists agg,
+    app_aggregate exact secs = Ok agg /\
+    g_total agg = sum_secs g_total (map (fun x => xfooter (snd x)) secs) /\
+    (forall y, year_val y (g_years agg)
+               = sum_secs (fun g => year_val y (g_years g)) (map (fun x => xfooter (snd x)) secs)) /\
+    (forall y, In y (map fst (g_years agg))
+               <-> exists x, In x secs /\ In y (map fst (g_years (xfooter (snd x))))).
+Proof.
+  rewrite app_aggregate_collect, collect_exact. cbn [bind].
+  destruct (aggregate_exact_total (some_gains (map (fun x => xown (snd x)) secs)) gains0) as [agg E].
+  exists agg. split; [exact E|].
+  assert (HF : Forall (fun s => NoDup (map fst (g_years s))) (some_gains (map (fun x => xown (snd x)) secs))).
+  { apply Forall_forall. intros g Hg. apply some_gains_in in Hg as [x [_ ->]].
+    apply (footer_gains_exact (snd x)). }
+  destruct (aggregate_totals _ _ E HF) as [Ht Hy]. split; [|split].
+  - rewrite Ht. apply sum_some. reflexivity.
+  - intros y. rewrite Hy. apply (sum_some (fun g => year_val y (g_years g))). reflexivity.
+  - intros y. rewrite (aggregate_keys _ _ _ _ y E). cbn [gains0 g_years map In]. split.
+    + intros [[]|[g [Hg Hy']]]. apply some_gains_in in Hg as [x [Hx ->]]. exists x. auto.
+    + intros [x [Hx Hy']]. right. destruct (some_gains_in_rev _ _ Hx) as [E0|Hin].
+      * rewrite E0 in Hy'. destruct Hy'.
+      * eexists; split; [exact Hin | exact Hy'].
+Qed.
+
+(* ================================================================ E. adding the rows of other securities adds their own totals *)
+Lemma strongly_sorted_nodup l : StronglySorted N.lt l -> NoDup l.
+Proof.
+  induction 1 as [|a l Hs IH Ha]; constructor; [|exact IH].
+  intros Hin. rewrite Forall_forall in Ha. specialize (Ha _ Hin). lia.
+Qed.
+
+Lemma nodup_app {T} (l1 l2 : list T) :
+  NoDup l1 -> NoDup l2 -> (forall x, In x l1 -> ~ In x l2) -> NoDup (l1 ++ l2).
+Proof.
+  induction l1 as [|a l1 IH]; intros H1 H2 Hd; cbn [app]; [exact H2|].
+  apply NoDup_cons_iff in H1 as [Ha H1]. constructor.
+  - intros Hin. apply in_app_or in Hin as [Hin|Hin]; [contradiction|]. apply (Hd a); [left; reflexivity | exact Hin].
+  - apply IH; try assumption. intros x Hx. apply Hd. right; exact Hx.
+Qed.
+
+Lemma sum_secs_app f l1 l2 : sum_secs f (l1 ++ l2) = sum_secs f l1 + sum_secs f l2.
+Proof. induction l1 as [|a l1 IH]; cbn [app sum_secs]; [ring | rewrite IH; ring]. Qed.
+
+Lemma xfooter_independent inits s a b i :
+  interleave a b i -> Forall (fun y => N.eqb (t_sec y) s = false) b ->
+  xfooter (outcome_of exact inits (number i) s) = xfooter (outcome_of exact inits (number a) s).
+Proof.
+  intros Hi Hb. unfold xfooter.
+  rewrite <- (footer_gains_erase exact (outcome_of exact inits (number i) s)).
+  unfold outcome_of. rewrite (independent_of_other_securities exact _ s a b i Hi Hb).
+  rewrite footer_gains_erase. reflexivity.
+Qed.
+
+Section Additive.
+  Variable inits : list (N * status).
+  Variables a b i : list tx.
+  Hypothesis Hi : interleave a b i.
+  Hypothesis Hd : forall x y, In x a -> In y b -> t_sec x <> t_sec y.
+
+  Let L (l : list tx) : list N := securities (sort_txs (number l)).
+  Let F (l : list tx) (s : N) : gains := xfooter (outcome_of exact inits (number l) s).
+
+  Lemma other_rows_a s : In s (L a) -> Forall (fun y => N.eqb (t_sec y) s = false) b.
+  Proof.
+    intros Hs. apply run_has_security, in_map_iff in Hs as [x [Hx Hin]].
+    apply Forall_forall. intros y Hy. apply N.eqb_neq. intros E. apply (Hd x y Hin Hy). congruence.
+  Qed.
+  Lemma other_rows_b s : In s (L b) -> Forall (fun y => N.eqb (t_sec y) s = false) a.
+  Proof.
+    intros Hs. apply run_has_security, in_map_iff in Hs as [y [Hy Hin]].
+    apply Forall_forall. intros x Hx. apply N.eqb_neq. intros E. apply (Hd x y Hx Hin). congruence.
+  Qed.
+
+  Lemma secs_in s : In s (L i) <-> In s (L a) \/ In s (L b).
+  Proof.
+    unfold L. rewrite !run_has_security.
+    apply (interleave_in (map t_sec a) (map t_sec b) (map t_sec i)), interleave_map, Hi.
+  Qed.
+
+  Lemma secs_perm : Permutation (L i) (L a ++ L b).
+  Proof.
+    apply NoDup_Permutation.
+    - apply strongly_sorted_nodup, securities_sorted.
+    - apply nodup_app; try (apply strongly_sorted_nodup, securities_sorted).
+      intros s Ha Hb. apply run_has_security, in_map_iff in Ha as [x [Hx Hina]].
+      apply run_has_security, in_map_iff in Hb as [y [Hy Hinb]]. apply (Hd x y Hina Hinb). congruence.
+    - intros s. rewrite in_app_iff. apply secs_in.
+  Qed.
+
+  Lemma F_a s : In s (L a) -> F i s = F a s.
+  Proof. intros Hs. apply (xfooter_independent inits s a b i Hi), other_rows_a, Hs. Qed.
+  Lemma F_b s : In s (L b) -> F i s = F b s.
+  Proof. intros Hs. apply (xfooter_independent inits s b a i (interleave_sym _ _ _ Hi)), other_rows_b, Hs. Qed.
+
+  Lemma sums_split (f : gains -> Qc) :
+    sum_secs f (map (F i) (L i)) = sum_secs f (map (F a) (L a)) + sum_secs f (map (F b) (L b)).
+  Proof.
+    rewrite (sum_secs_perm f _ _ (Permutation_map (F i) secs_perm)), map_app, sum_secs_app.
+    rewrite (map_ext_in _ _ _ F_a), (map_ext_in _ _ _ F_b). reflexivity.
+  Qed.
+
+  Lemma results_footers l :
+    map (fun x : N * outcome => xfooter (snd x)) (results exact inits l) = map (F l) (L l).
+  Proof. unfold results. rewrite map_map. reflexivity. Qed.
+
+  Lemma results_keys l (P : gains -> Prop) :
+    (exists x, In x (results exact inits l) /\ P (xfooter (snd x))) <-> exists s, In s (L l) /\ P (F l s).
+  Proof.
+    unfold results. split.
+    - intros [x [Hx Hp]]. apply in_map_iff in Hx as [s [<- Hs]]. exists s. auto.
+    - intros [s [Hs Hp]]. exists (s, outcome_of exact inits (number l) s). split; [|exact Hp].
+      apply in_map_iff. exists s. auto.
+  Qed.
+
+  (* the aggregate of the run on the interleaving = the aggregate of the run
+     on a + the aggregate of the run on b (which counts the securities of b
+     that process without error, see [app_aggregate_exact]): total, every
+     year's figure, and the set of years shown.  Exact arithmetic. *)
+  Theorem aggregate_additive :
+    exists gi ga gb,
+      app_aggregate exact (results exact inits i) = Ok gi /\
+      app_aggregate exact (results exact inits a) = Ok ga /\
+      app_aggregate exact (results exact inits b) = Ok gb /\
+      g_total gi = g_total ga + g_total gb /\
+      (forall y, year_val y (g_years gi) = year_val y (g_years ga) + year_val y (g_years gb)) /\
+      (forall y, In y (years_sorted gi) <-> In y (years_sorted ga) \/ In y (years_sorted gb)).
+  Proof.
+    destruct (app_aggregate_exact (results exact inits i)) as (gi & Ei & Ti & Yi & Ki).
+    destruct (app_aggregate_exact (results exact inits a)) as (ga & Ea & Ta & Ya & Ka).
+    destruct (app_aggregate_exact (results exact inits b)) as (gb & Eb & Tb & Yb & Kb).
+    exists gi, ga, gb. repeat (split; [assumption|]).
+    rewrite results_footers in *. split; [|split].
+    - rewrite Ti, Ta, Tb. apply sums_split.
+    - intros y. rewrite Yi, Ya, Yb. apply (sums_split (fun g => year_val y (g_years g))).
+    - intros y. rewrite !years_sorted_in, Ki, Ka, Kb.
+      rewrite !(results_keys _ (fun g => In y (map fst (g_years g)))). split.
+      + intros [s [Hs Hy]]. apply secs_in in Hs as [Hs|Hs].
+        * left. exists s. rewrite <- (F_a s Hs). auto.
+        * right. exists s. rewrite <- (F_b s Hs). auto.
+      + intros [[s [Hs Hy]]|[s [Hs Hy]]]; exists s.
+        * rewrite (F_a s Hs). split; [apply secs_in; left; exact Hs | exact Hy].
+        * rewrite (F_b s Hs). split; [apply secs_in; right; exact Hs | exact Hy].
+  Qed.
+End Additive.
+
+(* ================================================================ F. the rendered report: aggregate rows = sums of the footers *)
+Definition footer_shows (full : bool) (g : gains) (tb : table) : Prop :=
+  tb_labels tb = LTotal :: map LYear (years_sorted g) /\
+  tb_values tb = pm_value full (g_total g) false
+                   :: map (fun yr => pm_value full (year_val yr (g_years g)) false) (years_sorted g).
+
+Definition aggregate_shows (full : bool) (g : gains) (rows : list (label * pm)) : Prop :=
+  rows = combine (map LYear (years_sorted g))
+                 (map (fun yr => pm_value full (year_val yr (g_years g)) false) (years_sorted g))
+         ++ [(LSince, pm_value full (g_total g) false)].
+
+Theorem aggregate_is_sum_of_tables full cur secs rep :
+  render_results exact full cur secs = Ok rep ->
+  exists (gl : list gains) agg,
+    Forall2 (fun g (y : N * option stop * table) => footer_shows full g (snd y)) gl (rp_tables rep) /\
+    Forall2 (fun g (x : sec_result) => snd (snd x) <> None -> g = gains0) gl secs /\
+    aggregate_shows full agg (rp_aggregate rep) /\
+    g_total agg = sum_secs g_total gl /\
+    (forall y, year_val y (g_years agg) = sum_secs (fun g => year_val y (g_years g)) gl) /\
+    (forall y, In y (years_sorted agg) <-> exists g, In g gl /\ In y (years_sorted g)).
+Proof.
+  intros H. exists (map (fun x : N * outcome => xfooter (snd x)) secs).
+  destruct (render_results_aggregate _ _ _ _ _ H) as [agg [Ea Er]]. exists agg.
+  destruct (app_aggregate_exact secs) as (agg' & Ea' & Ht & Hy & Hk).
+  rewrite Ea in Ea'. inversion Ea'; subst agg'; clear Ea'.
+  apply render_results_spec in H as [HF _].
+  split; [|split; [|split; [|split; [exact Ht | split; [exact Hy|]]]]].
+  - clear -HF. induction HF as [|x y l tabs Hxy HF IH]; cbn [map]; [constructor|]. constructor; [|exact IH].
+    apply sec_table_rel_own in Hxy as (_ & _ & Ht'). unfold own_table in Ht'.
+    destruct (footer_gains_exact (snd x)) as (Ef & _). rewrite Ef in Ht'. cbn [bind] in Ht'.
+    destruct (footer_is_gains _ _ _ _ _ _ Ht') as (Hl & _ & _ & total & yv & Hv & Hp & Hys).
+    split; [exact Hl|]. rewrite Hv. rewrite plus_minus_exact in Hp. inversion Hp; subst total.
+    f_equal. apply Forall2_pm_exact in Hys. exact Hys.
+  - clear. induction secs as [|x l IH]; cbn [map]; [constructor|]. constructor; [|exact IH].
+    apply (footer_gains_exact (snd x)).
+  - destruct (aggregate_is_gains _ _ _ _ Er) as (total & yv & Hrows & _ & Hp & Hys).
+    unfold aggregate_shows. rewrite Hrows. rewrite plus_minus_exact in Hp. inversion Hp; subst total.
+    apply Forall2_pm_exact in Hys. rewrite Hys. reflexivity.
+  - intros y. rewrite years_sorted_in, Hk. split.
+    + intros [x [Hx Hin]]. exists (xfooter (snd x)). split; [apply (in_map (fun x : N * outcome => xfooter (snd x))); exact Hx | apply years_sorted_in; exact Hin].
+    + intros [g [Hg Hin]]. apply in_map_iff in Hg as [x [<- Hx]]. exists x. split; [exact Hx | apply years_sorted_in; exact Hin].
+Qed.
